@@ -29,6 +29,8 @@ def plan(tier, seed):
                env=dict(VERIF_OLD_IDS=ids))
         j["name"] += "[ids=%s]" % ids
         jobs.append(j)
+    jobs.append(dict(name="C09-lemma-append-dtype-pairs", kind="pyfunc", timeout=600,
+                     payload=dict(func="vf.pyshim.lemma_append:append_dtype_pairs")))
     extra = dict(
         explanation="Histories are not explored: the dataset state is symbolic (row counts, partition directory of "
                     "each part file, which row groups are selected, which arrangement of part ids) and ONE operation "
